@@ -27,7 +27,7 @@
 import XotModel.Lemmas.FStack
 import XotModel.Lemmas.Scope10
 import XotModel.Lemmas.TraceInv
-import XotModel.Lemmas.RepairDecls
+import XotModel.Lemmas.RepairUnique
 
 namespace XotModel.Props
 open XotModel
@@ -459,6 +459,55 @@ theorem C10_repair_idem (env : Env) (hok : EnvOk env) (t : Tree) (path : Path) (
     subst hv
     rw [C10_repair_element env' t' path name ks' hat']
     exact facts_idem hat hf
+
+/-- The call keeps the hypothesis of all these theorems: no element of the tree declares a prefix
+    twice, and the empty prefix keeps id 0 — so the call can be repeated, anywhere. -/
+theorem C10_repair_keeps_unique (env : Env) (hok : EnvOk env) (t : Tree) (path : Path) (name : Nat)
+    (ks : List Tree) (hat : t.at? path = some (.node (.element name) ks)) (hu : UniqueBelow t)
+    (env' : Env) (t' : Tree) (h : createMissingPrefixes env t path = .ok (env', t')) :
+    EnvOk env' ∧ UniqueBelow t' := by
+  rw [C10_repair_element env t path name ks hat] at h
+  have hsub : UniqueBelow (.node (.element name) ks) := by
+    intro rel n' hn
+    exact hu (path ++ rel) n' (by rw [at?_append, hat]; exact hn)
+  have hf := repairElement_facts env hok t path name ks hat hsub env' t' h
+  exact ⟨hf.envOk, facts_unique hat hf hu⟩
+
+/-- States reachable by histories that alternate arbitrary edits — the tree and the interning tables
+    are replaced by any tree whose elements declare no prefix twice (nodes in new namespaces added,
+    subtrees moved or cloned away from their declarations, declarations added or removed: whatever
+    the editing API produces) — with successful `create_missing_prefixes` calls on elements. -/
+inductive RepairReachable : Env × Tree → Prop
+  | edit (env : Env) (t : Tree) : EnvOk env → UniqueBelow t → RepairReachable (env, t)
+  | repair (env : Env) (t : Tree) (path : Path) (name : Nat) (ks : List Tree) (env' : Env) (t' : Tree) :
+      RepairReachable (env, t) → t.at? path = some (.node (.element name) ks) →
+      createMissingPrefixes env t path = .ok (env', t') → RepairReachable (env', t')
+
+/-- ITERATION, invariant: however often nodes are added and the call is repeated, the state meets
+    the hypotheses of the per-call theorems again. -/
+theorem C10_iter_invariant (s : Env × Tree) (h : RepairReachable s) : EnvOk s.1 ∧ UniqueBelow s.2 := by
+  induction h with
+  | edit env t hok hu => exact ⟨hok, hu⟩
+  | repair env t path name ks env' t' _ hat hcall ih =>
+    exact C10_repair_keeps_unique env ih.1 t path name ks hat ih.2 env' t' hcall
+
+/-- ITERATION: in every reachable state, every successful call on an element leaves names,
+    attributes and content alone, makes every name of the subtree writable, is the identity when
+    repeated, and leads to a reachable state again. -/
+theorem C10_iter (s : Env × Tree) (h : RepairReachable s) (path : Path) (name : Nat) (ks : List Tree)
+    (hat : s.2.at? path = some (.node (.element name) ks)) (env' : Env) (t' : Tree)
+    (hcall : createMissingPrefixes s.1 s.2 path = .ok (env', t')) :
+    stripNs t' = stripNs s.2 ∧ namesWritable env' t' path = some true ∧
+      createMissingPrefixes env' t' path = .ok (env', t') ∧ RepairReachable (env', t') := by
+  obtain ⟨hok, hu⟩ := C10_iter_invariant s h
+  have hsub : UniqueBelow (.node (.element name) ks) := by
+    intro rel n' hn
+    exact hu (path ++ rel) n' (by rw [at?_append, hat]; exact hn)
+  obtain ⟨env, t⟩ := s
+  exact ⟨(C10_repair_frame env hok t path name ks hat hsub env' t' hcall).1,
+    C10_repair_writable env hok t path name ks hat hsub env' t' hcall,
+    C10_repair_idem env hok t path name ks hat hsub env' t' hcall,
+    RepairReachable.repair env t path name ks env' t' h hat hcall⟩
 
 /-- Non-vacuity: `<{ns2}a xmlns="ns3" {ns3}x="v"><b/><n0:c xmlns:n0="ns2"/></a>` (b in no namespace,
     c in ns2): the element and the attribute get new prefixes (n0, id 5, is declared below, so n1 and
